@@ -9,7 +9,7 @@ from ..facts import Operand, Place
 from ..guards import unguarded_uses
 
 EXPLANATION = ("C15: decision-table extraction (DT) from the loop-free MIR of may_follow_link: every branch is a comparison "
-               "whose operands are canonicalised by provenance into four atoms; all 16 valuations are pushed through the CFG "
+               "whose operands are canonicalised by provenance into the four kernel comparisons (the sticky and other-writable bits may be tested separately); all 32 valuations of the five inputs are pushed through the CFG "
                "and the resulting Ok/Err(EACCES) table is compared with the kernel's may_follow_link(); call placement in "
                "the walk (before the readlink of every followed link, not for an unfollowed trailing link, with (directory "
                "fd, link fd)); source of the cached sysctl.")
